@@ -113,6 +113,7 @@ def eval_device(case):
     pass_idx = -1
     seen_user = False
     frames = {r: [] for r in rows_anim}   # row -> list of (pass, t_us)
+    pass_t = {}
     cur_frame = None
     for t, k, a in trace.events:
         p = a.split()
@@ -120,6 +121,7 @@ def eval_device(case):
             phase = a
             if a.startswith("loop"):
                 pass_idx = int(a.split()[1])
+                pass_t[pass_idx] = t
                 seen_user = False
             cur_frame = None
             continue
@@ -171,6 +173,19 @@ def eval_device(case):
             tail = [f for f in fr if f["pass"] >= 2 * n // 3]
             if not tail and not (a["style"] == "bounce" and 0 < len(a["text"]) < cols and False):
                 return "FAIL", [mk(f"looping-animation-stopped:{a['style']}", "still stepping in the last third of the run", f"{len(fr)} frames, last in pass {fr[-1]['pass'] if fr else None} of {n}")]
+        if a["loop"]:
+            # a looping animation never rests: once it has stepped, it steps again in the first pass whose tick comes speed_ms or more later
+            m_last = None
+            by_pass = {f["pass"]: f for f in fr}
+            if 0 in pass_t and 0 not in by_pass:
+                return "FAIL", [mk(f"looping-animation-stopped:{a['style']}", "the first tick after animate() paints the first frame", f"no frame in pass 0; {len(fr)} frames in all")]
+            for p_ in sorted(pass_t):
+                tick_ms = pass_t[p_] // 1000
+                f = by_pass.get(p_)
+                if m_last is not None and (m_last & 0xffffffff) != 0 and tick_ms - m_last >= a["speed"] and f is None:
+                    return "FAIL", [mk(f"looping-animation-stopped:{a['style']}", f"a step in pass {p_} ({tick_ms - m_last} ms after the previous step, speed_ms={a['speed']})", f"no frame; {len(fr)} frames in all, last in pass {fr[-1]['pass']}")]
+                if f is not None:
+                    m_last = f["t"] // 1000
         # rate limit
         for f1, f2 in zip(fr, fr[1:]):
             m1, m2 = f1["t"] // 1000, f2["t"] // 1000
